@@ -1,0 +1,123 @@
+//go:build verif
+
+// Contracts checked by /verif/govc (comment-only file; see /verif/DESIGN.md, property C31).
+// The precedence  unary (* + ?)  >  ++  >  %  >  sequence  >  |  is stated as provenance: lvF(e) "e was returned by
+// parseFactor", lv2 "a factor or a ++ chain of factors", lv1 "a lv2 or a % chain of lv2", lvS "a lv1 or a sequence of
+// lv1", lvE "a lvS or a choice of lvS". The predicates are uninterpreted: they hold only where a postcondition or
+// one of the introduction axioms below establishes them, so an operand taken from the wrong level is caught.
+package parser
+
+//@ ufunc lvF(e ast.Expr) bool
+//@ ufunc lv2(e ast.Expr) bool
+//@ ufunc lv1(e ast.Expr) bool
+//@ ufunc lvS(e ast.Expr) bool
+//@ ufunc lvE(e ast.Expr) bool
+//@ axiom manual lv2Factor := forall e ast.Expr :: lvF(e) ==> lv2(e)
+//@ axiom manual lv2Chain := forall b *ast.BinaryExpr :: b != nil && b.Op == token.INC && lv2(b.X) && lvF(b.Y) ==> lv2(ast.Expr(b))
+//@ axiom manual lv1Base := forall e ast.Expr :: lv2(e) ==> lv1(e)
+//@ axiom manual lv1Chain := forall b *ast.BinaryExpr :: b != nil && b.Op == token.REM && lv1(b.X) && lv2(b.Y) ==> lv1(ast.Expr(b))
+//@
+//@ pred errsGrow(p *parser) := len(p.errors) >= old(len(p.errors)) && (fresh(p.errors) || samearray(p.errors, old(p.errors)))
+//@ # nEmpty counts the empty sequences built (a rule body or parenthesised expression without any factor); every one of
+//@ # them is paid for by a reported error
+//@ ghost nEmpty int
+//@ pred accounted(p *parser) := nEmpty >= old(nEmpty) && nEmpty - old(nEmpty) <= len(p.errors) - old(len(p.errors))
+//@ # the token source and the error sink (ASSUMED: next replaces the current token; errors only grow)
+//@ trusted (*parser).next
+//@   requires p != nil
+//@   assigns p.pos, p.tok, p.lit, p.scanner, p.errors, elems(p.errors)
+//@   ensures errsGrow(p)
+//@ trusted (*parser).error
+//@   requires p != nil
+//@   assigns p.errors, elems(p.errors)
+//@   ensures len(p.errors) == old(len(p.errors)) + 1 && (fresh(p.errors) || samearray(p.errors, old(p.errors)))
+//@ trusted (*parser).errorExpected
+//@   requires p != nil
+//@   assigns p.errors, elems(p.errors)
+//@   ensures len(p.errors) == old(len(p.errors)) + 1 && (fresh(p.errors) || samearray(p.errors, old(p.errors)))
+//@ func (*parser).expect
+//@   requires p != nil
+//@   assigns p.pos, p.tok, p.lit, p.scanner, p.errors, elems(p.errors)
+//@   ensures errsGrow(p)
+//@   ensures [mismatch-is-an-error] old(p.tok) != tok ==> len(p.errors) > old(len(p.errors))
+//@
+//@ func (*parser).parseFactor
+//@   option termination off
+//@   requires p != nil
+//@   assigns p.pos, p.tok, p.lit, p.scanner, p.errors, elems(p.errors), nEmpty
+//@   ensures [empty-sequences-are-reported] accounted(p)
+//@   ensures [call.level] result1 ==> lvF(result0)
+//@   ensures [errors-grow] errsGrow(p)
+//@   ensures [no-factor-consumes-nothing] !result1 ==> result0 == nil && p.tok == old(p.tok) && p.pos == old(p.pos) && len(p.errors) == old(len(p.errors))
+//@   ensures [success-has-a-factor] result1 ==> result0 != nil
+//@   ensures [factor-kinds] result1 ==> istype(result0, *ast.Ident) || istype(result0, *ast.BasicLit) || istype(result0, *ast.UnaryExpr) || lvE(result0)
+//@   ensures [ident] old(p.tok) == token.IDENT ==> result1 && istype(result0, *ast.Ident) && result0.(*ast.Ident).Name == old(p.lit) && result0.(*ast.Ident).NamePos == old(p.pos)
+//@   ensures [literal] old(p.tok) == token.CHAR || old(p.tok) == token.STRING ==> result1 && istype(result0, *ast.BasicLit) && result0.(*ast.BasicLit).Value == old(p.lit) && result0.(*ast.BasicLit).Kind == old(p.tok)
+//@   ensures [unary-binds-a-factor] old(p.tok) == token.MUL || old(p.tok) == token.ADD || old(p.tok) == token.QUESTION ==> result1 && istype(result0, *ast.UnaryExpr) &&
+//@            result0.(*ast.UnaryExpr).Op == old(p.tok) && result0.(*ast.UnaryExpr).OpPos == old(p.pos) &&
+//@            (result0.(*ast.UnaryExpr).X == nil || lvF(result0.(*ast.UnaryExpr).X))
+//@   ensures [missing-operand-is-an-error] (old(p.tok) == token.MUL || old(p.tok) == token.ADD || old(p.tok) == token.QUESTION) && result0.(*ast.UnaryExpr).X == nil ==> len(p.errors) > old(len(p.errors))
+//@   ensures [parenthesised-is-an-expression] old(p.tok) == token.LPAREN ==> result1 && lvE(result0)
+//@
+//@ func (*parser).parseTerm2
+//@   option termination off
+//@   requires p != nil
+//@   assigns p.pos, p.tok, p.lit, p.scanner, p.errors, elems(p.errors), nEmpty
+//@   ensures [empty-sequences-are-reported] accounted(p)
+//@   ensures [call.level] result0 != nil ==> lv2(result0)
+//@   ensures [errors-grow] errsGrow(p)
+//@   ensures [adjoin-chain-is-left-associative-over-factors] result0 != nil ==> lvF(result0) ||
+//@            (istype(result0, *ast.BinaryExpr) && result0.(*ast.BinaryExpr).Op == token.INC && lv2(result0.(*ast.BinaryExpr).X) && lvF(result0.(*ast.BinaryExpr).Y))
+//@   ensures [stops-before-other-operators] result1 ==> p.tok != token.INC
+//@   ensures [success-has-a-term] result1 ==> result0 != nil
+//@   ensures [failure-after-operator-is-an-error] !result1 && result0 != nil ==> len(p.errors) > old(len(p.errors))
+//@ loop (*parser).parseTerm2#1
+//@   invariant p != nil && x != nil && lv2(x) && errsGrow(p) && accounted(p)
+//@   invariant lvF(x) || (istype(x, *ast.BinaryExpr) && x.(*ast.BinaryExpr).Op == token.INC && lv2(x.(*ast.BinaryExpr).X) && lvF(x.(*ast.BinaryExpr).Y))
+//@   use lv2Factor(x)
+//@   use lv2Chain(x.(*ast.BinaryExpr))
+//@
+//@ func (*parser).parseTerm
+//@   option termination off
+//@   requires p != nil
+//@   assigns p.pos, p.tok, p.lit, p.scanner, p.errors, elems(p.errors), nEmpty
+//@   ensures [empty-sequences-are-reported] accounted(p)
+//@   ensures [call.level] result0 != nil ==> lv1(result0)
+//@   ensures [errors-grow] errsGrow(p)
+//@   ensures [list-chain-is-left-associative-over-adjoin-chains] result0 != nil ==> lv2(result0) ||
+//@            (istype(result0, *ast.BinaryExpr) && result0.(*ast.BinaryExpr).Op == token.REM && lv1(result0.(*ast.BinaryExpr).X) && lv2(result0.(*ast.BinaryExpr).Y))
+//@   ensures [stops-before-other-operators] result1 ==> p.tok != token.REM && p.tok != token.INC
+//@   ensures [success-has-a-term] result1 ==> result0 != nil
+//@   ensures [failure-after-operator-is-an-error] !result1 && result0 != nil ==> len(p.errors) > old(len(p.errors))
+//@ loop (*parser).parseTerm#1
+//@   invariant p != nil && x != nil && lv1(x) && errsGrow(p) && accounted(p) && p.tok != token.INC
+//@   invariant lv2(x) || (istype(x, *ast.BinaryExpr) && x.(*ast.BinaryExpr).Op == token.REM && lv1(x.(*ast.BinaryExpr).X) && lv2(x.(*ast.BinaryExpr).Y))
+//@   use lv1Base(x)
+//@   use lv1Chain(x.(*ast.BinaryExpr))
+//@
+//@ func (*parser).parseTermList
+//@   option termination off
+//@   requires p != nil
+//@   assigns p.pos, p.tok, p.lit, p.scanner, p.errors, elems(p.errors), nEmpty
+//@   ensures [empty-sequences-are-reported] accounted(p)
+//@   ensures [call.level] lvS(result)
+//@   ensures [errors-grow] errsGrow(p)
+//@   ensures [sequence-of-terms] result != nil && (lv1(result) || (istype(result, *ast.Sequence) && result.(*ast.Sequence) != nil &&
+//@            (forall k in 0..len(result.(*ast.Sequence).Items) :: lv1(result.(*ast.Sequence).Items[k]))))
+//@   at call error#1 assert [missing-factor-is-an-error-not-an-empty-rule] len(terms) == 0
+//@   at call error#1 set nEmpty = nEmpty + 1
+//@ loop (*parser).parseTermList#1
+//@   invariant p != nil && errsGrow(p) && accounted(p) && (cap(terms) == 0 || fresh(terms)) && (forall k in 0..len(terms) :: terms[k] != nil && lv1(terms[k]))
+//@
+//@ func (*parser).parseExpr
+//@   option termination off
+//@   requires p != nil
+//@   assigns p.pos, p.tok, p.lit, p.scanner, p.errors, elems(p.errors), nEmpty
+//@   ensures [empty-sequences-are-reported] accounted(p)
+//@   ensures [call.level] lvE(result)
+//@   ensures [errors-grow] errsGrow(p)
+//@   ensures [choice-of-sequences] result != nil && (lvS(result) || (istype(result, *ast.Choice) && result.(*ast.Choice) != nil && len(result.(*ast.Choice).Options) >= 2 &&
+//@            (forall k in 0..len(result.(*ast.Choice).Options) :: lvS(result.(*ast.Choice).Options[k]))))
+//@   ensures [stops-at-a-non-bar] p.tok != token.OR
+//@ loop (*parser).parseExpr#1
+//@   invariant p != nil && errsGrow(p) && accounted(p) && fresh(options) && len(options) >= 1 && (len(options) >= 2 || p.tok == token.OR) && (forall k in 0..len(options) :: lvS(options[k]))
